@@ -38,7 +38,7 @@ theorem cover_nil_eq (a b : Nat) (h : Cover [] a b) : a = b := by cases h; rfl
 /-- the root loop on honest input: supplied nodes = the reference nodes at the remaining root positions -/
 theorem upgradeRoots_honest (C : Crypto) (bs : Array Bytes) (hN : bs.size < 2 ^ 64) : ∀ (rest done : List (Nat × Nat)) (fuel s : Nat)
     (st : UpState), Cover done 0 s → Cover rest s bs.size → DecDepth rest → st.it = iat 0 s → Align s bs.size →
-    st.grow = false → st.i = 0 →
+    st.grow = false →
     st.cs.roots = done.map (fun p => nodeAt C bs p.1 p.2) → st.q.nodes = rest.map (fun p => nodeAt C bs p.1 p.2) → st.q.extra = none →
     (∀ r, st.cs.roots.getLast? = some r → ∃ m o, r.index = Flat.index m o ∧ bs.size < s + 2 ^ m) →
     rest.length < fuel →
@@ -51,7 +51,7 @@ theorem upgradeRoots_honest (C : Crypto) (bs : Array Bytes) (hN : bs.size < 2 ^ 
   intro rest
   induction rest with
   | nil =>
-    intro done fuel s st hdone hrest _ hit _ _ _ hroots _ hex _ hfuel
+    intro done fuel s st hdone hrest _ hit _ _ hroots _ hex _ hfuel
     cases hrest
     obtain ⟨fuel, rfl⟩ : ∃ f, fuel = f + 1 := ⟨fuel - 1, by simp at hfuel; omega⟩
     refine ⟨{ st with it := iat 0 bs.size }, ?_, by simpa using hroots, by simp, hex, rfl, by simp, by simp, rfl, rfl, rfl⟩
@@ -59,7 +59,7 @@ theorem upgradeRoots_honest (C : Crypto) (bs : Array Bytes) (hN : bs.size < 2 ^ 
     rw [hit, fullRoot_done bs.size bs.size (Nat.le_refl _)]
     simp
   | cons p rest ih =>
-    intro done fuel s st hdone hrest hdec hit hal hgrow hi hroots hq hex hlast hfuel
+    intro done fuel s st hdone hrest hdec hit hal hgrow hroots hq hex hlast hfuel
     obtain ⟨d, o⟩ := p
     obtain ⟨fuel, rfl⟩ : ∃ f, fuel = f + 1 := ⟨fuel - 1, by simp at hfuel; omega⟩
     obtain ⟨c1, c2, c3⟩ := cover_lt _ s bs.size d o rest rfl hrest hdec
@@ -82,18 +82,18 @@ theorem upgradeRoots_honest (C : Crypto) (bs : Array Bytes) (hN : bs.size < 2 ^ 
     -- no existing root sits here
     have hno : ¬ (st.i < st.cs.roots.length ∧ (st.cs.roots.getD st.i default).index = (iat J o).index) := by
       rintro ⟨h1, h2⟩
-      rw [hi] at h1 h2
       rw [hroots] at h1 h2
-      cases done with
-      | nil => simp at h1
-      | cons q dn =>
-        simp only [List.map_cons, List.getD_cons_zero] at h2
-        have hb := Cover.bound hdone q (by simp)
-        have := pos_index_lt q.1 q.2 s hb
-        have hidx : (iat J o).index = 2 * s + 2 ^ J - 1 := by rw [← ho]; exact index_aligned J s hd
-        have hq : (nodeAt C bs q.1 q.2).index = Flat.index q.1 q.2 := rfl
-        have := pow_pos' J
-        omega
+      have h1' : st.i < done.length := by simpa using h1
+      have hget : (done.map (fun p => nodeAt C bs p.1 p.2)).getD st.i default = nodeAt C bs (done[st.i]).1 (done[st.i]).2 := by
+        rw [List.getD_eq_getElem?_getD, List.getElem?_eq_getElem (by simpa using h1')]
+        simp
+      rw [hget] at h2
+      have hb := Cover.bound hdone (done[st.i]) (List.getElem_mem h1')
+      have := pos_index_lt (done[st.i]).1 (done[st.i]).2 s hb
+      have hidx : (iat J o).index = 2 * s + 2 ^ J - 1 := by rw [← ho]; exact index_aligned J s hd
+      have hq : (nodeAt C bs (done[st.i]).1 (done[st.i]).2).index = Flat.index (done[st.i]).1 (done[st.i]).2 := rfl
+      have := pow_pos' J
+      omega
     simp only [hno, ite_false]
     -- the next supplied node is the one asked for
     have hqs : st.q = ⟨nodeAt C bs J o :: rest.map (fun p => nodeAt C bs p.1 p.2), none, st.q.length⟩ := by
@@ -143,7 +143,7 @@ theorem upgradeRoots_honest (C : Crypto) (bs : Array Bytes) (hN : bs.size < 2 ^ 
         rw [this] at hr; exact hr
     obtain ⟨st', h1, h2, h3, h4, h5, h6, h7, h8, h9, h10⟩ := ih (done ++ [(J, o)]) fuel (s + 2 ^ J)
       { st with cs := cs1, it := it1.nextTree, q := ⟨rest.map (fun p => nodeAt C bs p.1 p.2), none, st.q.length - 1⟩, grow := false }
-      hdone' hrest' (List.pairwise_cons.mp hdec).2 (by show it1.nextTree = _; rw [hit1', hnext]) hal' rfl hi
+      hdone' hrest' (List.pairwise_cons.mp hdec).2 (by show it1.nextTree = _; rw [hit1', hnext]) hal' rfl
       (by show cs1.roots = _; rw [hr1, hroots]; simp) rfl rfl
       (fun r hr => by
         have hr' : cs1.roots.getLast? = some r := hr
@@ -176,7 +176,7 @@ theorem fresh_upgrade_accepted (C : Crypto) (bs : Array Bytes) (hN : bs.size < 2
   obtain ⟨st', h1, h2, h3, h4, _, h6, h7, h8, h9, h10⟩ := upgradeRoots_honest C bs hN (rootsStack bs.size).reverse [] (2 * bs.size + 2) 0
     ⟨cs, Iter.new 0, NodeQueue.new (RefTree.roots C bs) none, 0, !cs.roots.isEmpty⟩
     (Cover.nil 0) (cover_roots bs.size) (rootsStack_rev_dec bs.size) (by show Iter.new 0 = iat 0 0; exact new_even 0) (align_zero _)
-    (by simp [hroots]) rfl (by simp [hroots]) (by simp [NodeQueue.new, hrs]) rfl
+    (by simp [hroots]) (by simp [hroots]) (by simp [NodeQueue.new, hrs]) rfl
     (fun r hr => by have hr' : cs.roots.getLast? = some r := hr; rw [hroots] at hr'; cases hr')
     (by
       have hl := cover_length_le _ _ _ (cover_roots bs.size)
